@@ -298,6 +298,16 @@ class Executor:
             me = m._find("methods", attr)
             if me is not None:
                 return [(path, BM(v, attr))]
+            dyn = getattr(m, "dyn_attrs", None)
+            if dyn is not None and attr in dyn:
+                # instance attribute kept in the object's __dict__ (a str-keyed dict)
+                d = path.sel(f"{m.heapname}.__dict__", v.e)
+                key = z3.StringVal(attr)
+                self.run.oblige(path, "builtin", f"attribute-{attr}-is-set@{getattr(node, 'lineno', 0)}",
+                                z3.Select(path.sel("dict.has", d), key))
+                raw = z3.Select(path.sel("dict.val", d), key)
+                t = dyn[attr]
+                return [(path, B(truthy(raw)) if t == "bool" else wrap(t, raw))]
             self.unsupported(node, f"attribute {attr!r} of class {v.cls}")
         if isinstance(v, Clo):
             if attr in v.attrs:
@@ -603,6 +613,9 @@ class Executor:
     def setitem(self, path, c: V, k: V, v: V, node=None):
         if isinstance(c, O):
             base, targs = split_generic(c.cls)
+            fn = getattr(CLASSES.get(base), "setitem_fn", None) if base in CLASSES else None
+            if fn is not None:
+                return fn(self, path, c, k, v, node)
             if base == "dict" and isinstance(k, S):
                 path.store("dict.has", c.e, z3.Store(path.sel("dict.has", c.e), k.e, True))
                 path.store("dict.val", c.e, z3.Store(path.sel("dict.val", c.e), k.e, ref_of(v)))
@@ -622,6 +635,11 @@ class Executor:
             self.unsupported(node, "non-empty dict display")
         d = path.alloc("dict[str,Val]", "dct")
         path.store("dict.has", d.e, z3.K(Str, False))
+        # the same empty dict seen as an insertion-ordered dict (used when a contract types the local so)
+        if "odict.has" in HEAP_SORTS_REF:
+            path.store("odict.has", d.e, z3.K(Str, False))
+            keys = self.new_list(path, [])
+            path.store("odict.keys", d.e, keys.e)
         return [(path, d)]
 
     def ev_Lambda(self, node, path):
@@ -1227,6 +1245,33 @@ class Executor:
     def exec_Pass(self, st, path):
         return [(path, NORM)]
 
+    def exec_Delete(self, st, path):
+        out = [(path, NORM)]
+        for tgt in st.targets:
+            if not isinstance(tgt, ast.Subscript):
+                self.unsupported(st, "del of non-subscript")
+            nxt = []
+            for p, oc in out:
+                if not isinstance(oc, Norm):
+                    nxt.append((p, oc))
+                    continue
+                for p2, r in self.ev_seq([tgt.value, tgt.slice], p):
+                    if isinstance(r, Raise):
+                        nxt.append((p2, r))
+                        continue
+                    d, k = r
+                    if not (isinstance(d, O) and split_generic(d.cls)[0] == "dict" and isinstance(k, S)):
+                        self.unsupported(st, "del on non str-keyed dict")
+                    has = p2.sel("dict.has", d.e)
+                    for p3, present in self.branch(p2, z3.Select(has, k.e)):
+                        if present:
+                            p3.store("dict.has", d.e, z3.Store(p3.sel("dict.has", d.e), k.e, False))
+                            nxt.append((p3, NORM))
+                        else:
+                            nxt.append((p3, Raise(Exc("KeyError", {"key": k}))))
+            out = nxt
+        return out
+
     def exec_Global(self, st, path):
         return [(path, NORM)]
 
@@ -1329,8 +1374,11 @@ class Executor:
                 if isinstance(r, Raise):
                     out.append((p, r))
                     continue
-                self.setitem(p, r[0], r[1], v, tgt)
-                out.append((p, NORM))
+                forks = self.setitem(p, r[0], r[1], v, tgt)
+                if forks:
+                    out += [(p2, NORM) for p2, _ in forks]
+                else:
+                    out.append((p, NORM))
             return out
         self.unsupported(tgt, "assignment target")
 
@@ -1356,6 +1404,13 @@ class Executor:
                 else:
                     val = ref_of(v)
                 path.store(key, obj.e, val)
+                return [(path, NORM)]
+            dyn = getattr(m, "dyn_attrs", None)
+            if dyn is not None and attr in dyn:
+                d = path.sel(f"{m.heapname}.__dict__", obj.e)
+                key = z3.StringVal(attr)
+                path.store("dict.has", d, z3.Store(path.sel("dict.has", d), key, True))
+                path.store("dict.val", d, z3.Store(path.sel("dict.val", d), key, ref_of(v)))
                 return [(path, NORM)]
             self.unsupported(node, f"store to undeclared attribute {obj.cls}.{attr}")
         if isinstance(obj, Clo):
@@ -1517,6 +1572,10 @@ class Executor:
         entry.written = [ref_of(path.env[nm]) for nm in path.env if nm.startswith("__acc") and isinstance(path.env[nm], O)]
         if spec.written is not None:
             entry.written += list(spec.written(self.s0, self.a, self._locals_ns(path)))
+        # the key list of an insertion-ordered dict local is written whenever the dict is
+        for x in list(entry.written):
+            if "odict.keys" in path.heap:
+                entry.written.append(z3.Select(path.hget("odict.keys"), x))
         self.havoc_keys(path, mods, entry, prefix="L_", exclude=entry.written)
         return entry
 
@@ -1745,6 +1804,7 @@ def _target_names(t):
 
 
 TRIVIAL_LOOP_MODIFIES = ["list.arr+", "list.len+", "set.has+"]
+from .core import HEAP_SORTS as HEAP_SORTS_REF  # noqa: E402
 BINOPS: Dict[tuple, Callable] = {}
 CONTAINS_HOOKS: Dict[str, Callable] = {}
 STR_METHODS: Dict[str, Callable] = {}
